@@ -546,3 +546,38 @@ DRV(drv_math_interval_distance)
       drv::make<fcppt::tuple::object<float, float>>(),
       drv::make<fcppt::tuple::object<float, float>>());
 }
+
+// ---------------------------------------------------------------- value builders for the arithmetic rules (C08 OFFSET / NEXT / END):
+// the analysis evaluates these to obtain the element-wise representation of a position / dimension / min / sup
+namespace drv_grid_box
+{
+inline auto scenario_pos1(usz const a) { return pos_t<1>{a}; }
+inline auto scenario_pos2(usz const a, usz const b) { return pos_t<2>{a, b}; }
+inline auto scenario_pos3(usz const a, usz const b, usz const c) { return pos_t<3>{a, b, c}; }
+inline auto scenario_dim1(usz const a) { return dim_t<1>{a}; }
+inline auto scenario_dim2(usz const a, usz const b) { return dim_t<2>{a, b}; }
+inline auto scenario_dim3(usz const a, usz const b, usz const c) { return dim_t<3>{a, b, c}; }
+inline auto scenario_min1(usz const a) { return grid::make_min(pos_t<1>{a}); }
+inline auto scenario_min2(usz const a, usz const b) { return grid::make_min(pos_t<2>{a, b}); }
+inline auto scenario_min3(usz const a, usz const b, usz const c) { return grid::make_min(pos_t<3>{a, b, c}); }
+inline auto scenario_sup1(usz const a) { return grid::make_sup(pos_t<1>{a}); }
+inline auto scenario_sup2(usz const a, usz const b) { return grid::make_sup(pos_t<2>{a, b}); }
+inline auto scenario_sup3(usz const a, usz const b, usz const c) { return grid::make_sup(pos_t<3>{a, b, c}); }
+}
+
+DRV(drv_grid_value_builders)
+{
+  usz const &s{drv::clv<usz>()};
+  (void)scenario_pos1(s);
+  (void)scenario_pos2(s, s);
+  (void)scenario_pos3(s, s, s);
+  (void)scenario_dim1(s);
+  (void)scenario_dim2(s, s);
+  (void)scenario_dim3(s, s, s);
+  (void)scenario_min1(s);
+  (void)scenario_min2(s, s);
+  (void)scenario_min3(s, s, s);
+  (void)scenario_sup1(s);
+  (void)scenario_sup2(s, s);
+  (void)scenario_sup3(s, s, s);
+}
